@@ -4,7 +4,7 @@
 From V.lib Require Import Base.
 From V.c09 Require Import C09Model C09Spec C09Theorems.
 From V.c10 Require Import C10Model C10RlProofs C10CttsProofs C10StscProofs C10ConsProofs C10EndProofs C10LayoutProofs
-  C10TermProofs C10OutProofs.
+  C10TermProofs C10OutProofs C10E2EProofs.
 
 (* the hypotheses are satisfiable: C09's 7-sample example table with a cut inside a run, a chunk and a ctts entry *)
 Example ex_crop : consistent ex_tb = true /\
@@ -262,3 +262,72 @@ Theorem C10_write_mdat : forall file zeof startPos large payloadLen rs,
   lenN (out_bytes file rs) = ranges_len rs.
 Proof. exact write_mdat_correct. Qed.
 Print Assumptions C10_write_mdat.
+
+(* END TO END (fillTrakOutsAndByteRanges -> cropStblChildren -> updateChunkOffsets -> the output file), any number of
+   tracks, stco or co64, arbitrary interleaving.  The output file is  pre ++ hdr ++ (concatenated byte ranges)  where pre
+   stands for the S bytes of the re-encoded non-mdat boxes (their encoding is not modelled: ANY S bytes) and hdr for the
+   mdat header; h is the header size updateChunkOffsets assumes (the Go text: 8), which must be the length of hdr.
+   For every track, whenever cropStblChildren and updateChunkOffsets succeed on it (they refuse an stco offset >= 2^32 —
+   repaired text 864f0da):
+   * the cropped tables are consistent (every C09 theorem applies), the output has k samples in lastChunk chunks;
+   * every new chunk offset o satisfies  S + h <= o  and  o + (bytes of the kept part of the chunk) <= S + h + |payload|
+     ("chunk offsets point inside the new mdat");
+   * every kept sample n <= k, located through the OUTPUT's tables (S_offset_of / S_size of C09Spec on the cropped and
+     shifted tables), has the size it had in the input and the output file holds there exactly the input's bytes.
+   cut_ok: k within 1..N and lastChunk = the chunk of sample k (what findTrakEnds returns: C10_k). *)
+Example ex_cut : Forall cut_ok ex_ts0.
+Proof. repeat constructor; vm_compute; try reflexivity; intros H; discriminate H. Qed.
+Theorem C10_samples_end_to_end : forall file ts0 S h pre hdr,
+  Forall (static_ok file) ts0 -> Forall (fun t => ts_next t = 1 /\ ts_offsets t = []) ts0 -> Forall cut_ok ts0 ->
+  4611686018427387904 + 2 * pot ts0 < 18446744073709551616 ->
+  lenN pre = S -> lenN hdr = h -> S + h + pot ts0 < 18446744073709551616 ->
+  exists ts' ranges first', fill_loop (fill_fuel ts0) ts0 [] 0 0 = Ok (ts', ranges, first') /\
+    map static ts' = map static ts0 /\ Forall (range_in file) ranges /\
+    Forall (fun t => forall tb' tb2, crop_tables (ts_tb t) (ts_last_sample t) (ts_offsets t) = Ok tb' ->
+      shift_track (shift_delta h S first') tb' = Ok tb2 ->
+      consistent tb' = true /\ nsamples tb2 = ts_last_sample t /\ nchunks tb2 = ts_last_chunk t /\
+      (forall c, 1 <= c <= ts_last_chunk t ->
+         exists o, S_chunk_offset tb2 c = Some o /\ S + h <= o /\
+                   o + csize (ts_tb t) (ts_last_sample t) c <= S + h + lenN (out_bytes file ranges)) /\
+      (forall n, 1 <= n <= ts_last_sample t ->
+         exists off off' sz, S_offset_of (ts_tb t) n = Some off /\ S_size (ts_tb t) n = Some sz /\
+                             S_offset_of tb2 n = Some off' /\ S_size tb2 n = Some sz /\
+                             sublist (pre ++ hdr ++ out_bytes file ranges) off' sz = sublist file off sz)) ts'.
+Proof. exact samples_end_to_end. Qed.
+Print Assumptions C10_samples_end_to_end.
+
+(* cropStblChildren / updateChunkOffsets over all tracks succeed exactly when they succeed track by track *)
+Theorem C10_update_chunk_offsets_tracks : forall h S first tbs tbs',
+  update_chunk_offsets_h h S first tbs = Ok tbs' ->
+  Forall2 (fun a b => shift_track (shift_delta h S first) a = Ok b) tbs tbs'.
+Proof. exact (fun h S first => shift_tracks_Forall2 (shift_delta h S first)). Qed.
+Print Assumptions C10_update_chunk_offsets_tracks.
+
+Theorem C10_crop_all_tracks : forall ts tbs, crop_all ts = Ok tbs ->
+  Forall2 (fun t b => crop_tables (ts_tb t) (ts_last_sample t) (ts_offsets t) = Ok b) ts tbs.
+Proof. exact crop_all_Forall2. Qed.
+Print Assumptions C10_crop_all_tracks.
+
+(* the header size assumed by updateChunkOffsets (h) and the header written by writeMdat must agree: with the size of the
+   INPUT's 16-byte largesize mdat header in the shift and the 8-byte header writeMdat always writes (C10_write_mdat),
+   sample 1 of the output is read 8 bytes too far *)
+Theorem C10_offsets_input_header_refuted :
+  exists ts' ranges tb' tb8 tb16 pre hdr,
+    fill_loop (fill_fuel [mkTS 1 wx_tb 5 3 1 []]) [mkTS 1 wx_tb 5 3 1 []] [] 0 0 = Ok (ts', ranges, 100) /\
+    lenN pre = 50 /\ lenN hdr = 8 /\
+    crop_all ts' = Ok [tb'] /\
+    update_chunk_offsets_h 8 50 100 [tb'] = Ok [tb8] /\ update_chunk_offsets_h 16 50 100 [tb'] = Ok [tb16] /\
+    S_offset_of wx_tb 1 = Some 100 /\ S_offset_of tb8 1 = Some 58 /\ S_offset_of tb16 1 = Some 66 /\
+    sublist (pre ++ hdr ++ out_bytes wx_file ranges) 58 4 = sublist wx_file 100 4 /\
+    sublist (pre ++ hdr ++ out_bytes wx_file ranges) 66 4 <> sublist wx_file 100 4.
+Proof. exact wrong_header_refuted. Qed.
+Print Assumptions C10_offsets_input_header_refuted.
+
+(* the pinned updateChunkOffsets (f87a9e4) stored uint32(offset + delta): an stco offset that moves past 2^32 wrapped
+   (known_findings C10-F8, witness replayed on cropMP4 with a virtual 4 GiB file); the repaired text refuses it *)
+Theorem C10_stco_wrap_refuted :
+  shift_stco_pinned (shift_delta 8 8556 36) [36; 4294960036] = [8564; 1268] /\
+  shift_stco (shift_delta 8 8556 36) [36; 4294960036] = Err /\
+  shift_co64 (shift_delta 8 8564 44) [44; 4294960044] = [8572; 4294968572].
+Proof. vm_compute. repeat split. Qed.
+Print Assumptions C10_stco_wrap_refuted.
